@@ -47,7 +47,13 @@ def vcd_token(rng, w, syms):
     chars = [SYMS[v] for v in syms]
     if w == 1:
         c = chars[0]
-        return (c.upper() if rng.random() < 0.3 else c).encode()
+        c = c.upper() if rng.random() < 0.3 else c
+        r = rng.random()
+        if r < 0.12:
+            return (rng.choice("bB") + c).encode()              # a scalar written as a one-character vector
+        if r < 0.2:
+            return (rng.choice("bB") + "0b" + c).encode()       # ... with the pymtl3 `0b` prefix
+        return c.encode()
     # shorten: strip leading repeats of the extension character where legal
     if rng.random() < 0.5:
         lead = chars[0]
